@@ -316,7 +316,10 @@ def analyse(spec, quick=True, acc=None):
 
     def run(ans, cls):
         acc.ev()
-        acc.cls(name, cls)
+        if cls is None:
+            acc.count("bulk_enumerated_distinct_cases")  # answer vectors beyond the first 65536 of a target: counted, not named
+        else:
+            acc.cls(name, cls)
         return f(ans)
 
     try:
@@ -356,7 +359,7 @@ def analyse(spec, quick=True, acc=None):
         counts = collections.Counter()
         logdiff = False
         for idx, ans in enumerate(itertools.product(*[range(R) for R in sizes])):
-            o, lg = run(list(ans), f"all:{idx}")
+            o, lg = run(list(ans), f"all:{idx}" if idx < 65536 else None)
             if lg != log:
                 logdiff = True
             counts[tuple(o)] += 1
